@@ -1577,6 +1577,8 @@ class InBodyPhase(Phase):
         self.tree.reconstructActiveFormattingElements()
         self.tree.insertElement(impliedTagToken("br", "StartTag"))
         self.tree.openElements.pop()
+        # (as for a <br> start tag)
+        self.parser.framesetOK = False
 
     def endTagOther(self, token):
         for node in self.tree.openElements[::-1]:
